@@ -389,6 +389,12 @@ impl ClusterHandler for GenCommHandler<'_> {
                     notify_change,
                 )?;
 
+                // Nothing bound to a rolled-back fabric may outlive it
+                #[cfg(feature = "case-resumption")]
+                if let Some(fab_idx) = removed_fabric {
+                    state.purge_resumption_for_fabric(fab_idx, ctx.kv())?;
+                }
+
                 Ok(())
             }))?
         } else {
